@@ -257,12 +257,14 @@ def obligations(tier: str) -> List[dict]:
         for s0 in range(len(SLOTS) - 1):
             add(2, 400, s0=s0)
     else:
-        add(1, 1500)
+        add(0, 600, ['identity-options', 'fed-back'])
+        add(1, 1500, ['two-files'])
         for s0 in range(len(SLOTS) - 1):
             for s1 in range(s0 + 1, len(SLOTS)):
-                add(2, 3000, s0=s0, s1=s1)
-                if s1 < len(SLOTS) - 1:
-                    add(3, 3000, s0=s0, s1=s1, files=0)
+                add(2, 1800, s0=s0, s1=s1)
+        for s0 in range(5):
+            for s1 in range(s0 + 1, len(SLOTS) - 1):
+                add(3, 1800, s0=s0, s1=s1, files=0)
     return obs
 
 
